@@ -46,10 +46,12 @@ fn main() {
     let mut picked = 0usize;
     let mut index = enumerated;
     let mut kinds = std::collections::BTreeMap::<&'static str, usize>::new();
+    // every layout family (component counts 1, 2, 3, 4 and f64) gets its share: the array casts are monomorphic per layout
+    let mut layouts = std::collections::BTreeMap::<String, usize>::new();
     while picked < want_a && index < enumerated + 20_000 {
         let plan = make_plan(&w, seed, index, Tier::Quick);
         index += 1;
-        let Plan::Guards { buf, episodes, .. } = &plan else { continue };
+        let Plan::Guards { buf, episodes, layout, .. } = &plan else { continue };
         let text = serde_json::to_string(&plan).unwrap_or_default();
         let size = text.matches("\"Write\"").count() + text.matches("\"Nest\"").count() * 2 + text.matches("\"ThenInto\"").count() + episodes.len();
         if buf.len() > 4 || size > 9 {
@@ -69,11 +71,11 @@ fn main() {
         } else {
             "plain"
         };
-        let n = kinds.entry(tag).or_default();
-        if *n >= want_a.div_ceil(5) {
+        if kinds.get(tag).copied().unwrap_or(0) >= want_a.div_ceil(5) || layouts.get(&format!("{layout:?}")).copied().unwrap_or(0) >= want_a.div_ceil(5) {
             continue;
         }
-        *n += 1;
+        *kinds.entry(tag).or_default() += 1;
+        *layouts.entry(format!("{layout:?}")).or_default() += 1;
         let r = execute_once(&w, &plan, &mut stats, &known, false);
         picked += 1;
         ran += 1;
@@ -82,6 +84,6 @@ fn main() {
             std::process::exit(1);
         }
     }
-    println!("world A: {picked} guard-history plans executed ({kinds:?})");
+    println!("world A: {picked} guard-history plans executed ({kinds:?}, {layouts:?})");
     println!("MIRI-STAGE-OK plans={ran} steps={} comparisons={}", stats.steps, stats.oracle_checks);
 }
